@@ -230,12 +230,16 @@ def ir_inventory(program):
     from mc import irwalk
     inv = {k: Counter() for k in ('classes', 'var_typed', 'var_untyped', 'fun_typed', 'fun_untyped', 'fields',
                                   'new_inferred', 'new_explicit', 'strings', 'toplevel_vars', 'class_tparams',
-                                  'fun_tparams')}
+                                  'fun_tparams', 'local_fun_def', 'local_fun_closure')}
     generic = set()
+    void_name = type(program.bt_factory.get_void_type()).__name__
+    not_local = set()
     decls = program.context.get_declarations(('global',), only_current=True)
     for d in decls.values():
         if isinstance(d, ast.VariableDeclaration):
             inv['toplevel_vars'][d.name] += 1
+        elif isinstance(d, ast.FunctionDeclaration):
+            not_local.add(id(d))
     for path, o in irwalk.walk(list(decls.values())):
         if isinstance(o, ast.ClassDeclaration):
             inv['classes'][o.name] += 1
@@ -245,10 +249,17 @@ def ir_inventory(program):
                 inv['class_tparams'][(o.name, tpar.name)] += 1
             for f in o.fields:
                 inv['fields'][f.name] += 1
+            for f in o.functions:
+                not_local.add(id(f))
         elif isinstance(o, ast.FunctionDeclaration):
             (inv['fun_typed'] if o.ret_type is not None else inv['fun_untyped'])[o.name] += 1
             for tpar in o.type_parameters or []:
                 inv['fun_tparams'][tpar.name] += 1
+            if id(o) not in not_local:
+                # a function declared inside a function body (Groovy prints it as a closure variable: `def f = {`
+                # when it carries no result type or returns void, `Closure<T> f = {` otherwise)
+                untyped = o.ret_type is None or type(o.ret_type).__name__ == void_name
+                inv['local_fun_def' if untyped else 'local_fun_closure'][o.name] += 1
         elif isinstance(o, ast.VariableDeclaration):
             (inv['var_typed'] if o.var_type is not None else inv['var_untyped'])[o.name] += 1
         elif isinstance(o, ast.New):
